@@ -226,6 +226,16 @@ def run(ctx) -> None:
     n += _probe_modes(h, vb, samples)
     n += _probe_vectors(h, vb, samples)
 
+    # ---- K: the emulator's private copy of the call/return opcode numbers (call-depth bookkeeping) vs the decoder table ----
+    from sc62015.pysc62015 import emulator as _emu
+    want_delta = {"CALL": 1, "CALLF": 1, "IR": 1, "RET": -1, "RETF": -1, "RETI": -1}
+    for op in range(256):
+        ins, _ = drv.py_decode(bytes([op]) + bytes.fromhex("3404050607"), 0x1000)
+        name = ins.name() if ins is not None else None
+        n += 1
+        if _emu.CALL_STACK_EFFECTS.get(op) != want_delta.get(name):
+            vb.add(f"C17/call-stack-effects/op={op:02X}", f"emulator.CALL_STACK_EFFECTS[{op:#04x}] = {_emu.CALL_STACK_EFFECTS.get(op)} but the decoder table says "
+                   f"opcode {op:#04x} is {name} (expected {want_delta.get(name)})", {"op": op})
     # ---- R: the register table as the Rust core implements it (names, widths, sub-register layout, r3 selectors) --
     from . import c08, c06
     from ..core import VB as _VB
